@@ -32,8 +32,9 @@ VARIABLES cfg,       \* [mode \in {"shared", "exclusive"}, calls : Seq([kind \in
           served,    \* server: indices of the requests whose method ran, in order
           acks,      \* server: acks[i] = how often request i was acknowledged
           published, \* server: indices of the requests a reply was published for
+          fgn,       \* server: what became of requests a FOREIGN producer put on the request queue: [ran, unacked, lost]
           closed, strays, sched
-vars == <<cfg, cst, outcome, reqQ, replyQ, futures, served, acks, published, closed, strays, sched>>
+vars == <<cfg, cst, outcome, reqQ, replyQ, futures, served, acks, published, fgn, closed, strays, sched>>
 
 Idx == DOMAIN cfg.calls
 IsCall(i) == cfg.calls[i].kind = "call"
@@ -47,6 +48,7 @@ InitWith(c) == /\ cfg = c
                /\ cst = [i \in DOMAIN c.calls |-> "new"] /\ outcome = [i \in DOMAIN c.calls |-> "none"]
                /\ reqQ = <<>> /\ replyQ = [q \in {0} \cup DOMAIN c.calls |-> <<>>] /\ futures = {}
                /\ served = <<>> /\ acks = [i \in DOMAIN c.calls |-> 0] /\ published = {}
+               /\ fgn = [ran |-> 0, unacked |-> 0, lost |-> 0]
                /\ closed = FALSE /\ strays = 0 /\ sched = <<>>
 
 Step(op, i, q, cid, ctype) == sched' = Append(sched, [op |-> op, i |-> i, q |-> q, cid |-> cid, ctype |-> ctype])
@@ -57,27 +59,45 @@ Start(i) ==
     /\ ~closed /\ cst[i] = "new"
     /\ IF IsCall(i)
        THEN /\ futures' = futures \cup {i}
-            /\ reqQ' = Append(reqQ, [call |-> i, has_reply |-> TRUE, reply_to |-> QueueOf(i), cid |-> i])
+            /\ reqQ' = Append(reqQ, [call |-> i, has_reply |-> TRUE, reply_to |-> QueueOf(i), cid |-> i, foreign |-> "no"])
             /\ cst' = [cst EXCEPT ![i] = "waiting"] /\ outcome' = outcome
        ELSE /\ futures' = futures
-            /\ reqQ' = Append(reqQ, [call |-> i, has_reply |-> FALSE, reply_to |-> 0, cid |-> 0])
+            /\ reqQ' = Append(reqQ, [call |-> i, has_reply |-> FALSE, reply_to |-> 0, cid |-> 0, foreign |-> "no"])
             /\ cst' = [cst EXCEPT ![i] = "returned"] /\ outcome' = outcome
     /\ Step("start", i, 0, 0, "na")
-    /\ UNCHANGED <<cfg, replyQ, served, acks, published, closed, strays>>
+    /\ UNCHANGED <<cfg, replyQ, served, acks, published, fgn, closed, strays>>
 
 \* Executor._rpc_handle for the head of the request queue: dispatch, publish the reply (calls only), acknowledge
 Serve ==
     /\ reqQ # <<>>
     /\ LET m == Head(reqQ) IN
        /\ reqQ' = Tail(reqQ)
-       /\ served' = Append(served, m.call)
-       /\ acks' = [acks EXCEPT ![m.call] = @ + 1]
-       /\ IF IsCall(m.call)
-          THEN /\ replyQ' = [replyQ EXCEPT ![m.reply_to] = Append(@, [cid |-> m.cid, ctype |-> "json", of |-> m.call])]
-               /\ published' = published \cup {m.call}
-          ELSE UNCHANGED <<replyQ, published>>
+       /\ CASE m.foreign = "garbage" ->
+                 \* the body cannot be decoded: nothing runs, nothing is published, the message is NOT acknowledged
+                 /\ fgn' = [fgn EXCEPT !.unacked = @ + 1] /\ UNCHANGED <<served, acks, replyQ, published>>
+            [] m.foreign = "noreply" ->
+                 \* a call without reply_to: the method runs, the reply is published to the routing key "" (nobody's queue)
+                 \* and the request is acknowledged
+                 /\ fgn' = [fgn EXCEPT !.ran = @ + 1, !.lost = @ + 1] /\ UNCHANGED <<served, acks, replyQ, published>>
+            [] OTHER ->
+                 /\ served' = Append(served, m.call)
+                 /\ acks' = [acks EXCEPT ![m.call] = @ + 1]
+                 /\ fgn' = fgn
+                 /\ IF IsCall(m.call)
+                    THEN /\ replyQ' = [replyQ EXCEPT ![m.reply_to] = Append(@, [cid |-> m.cid, ctype |-> "json", of |-> m.call])]
+                         /\ published' = published \cup {m.call}
+                    ELSE UNCHANGED <<replyQ, published>>
     /\ Step("serve", 0, 0, 0, "na")
     /\ UNCHANGED <<cfg, cst, outcome, futures, closed, strays>>
+
+\* another producer (not this client) puts a request on the request queue: a call that names no reply queue, or bytes that are
+\* not even text.  Whatever the server does with it, the client's calls are not touched.
+Foreign(k) ==
+    /\ strays < MaxStray /\ k \in {"noreply", "garbage"}
+    /\ reqQ' = Append(reqQ, [call |-> 0, has_reply |-> FALSE, reply_to |-> 0, cid |-> 0, foreign |-> k])
+    /\ strays' = strays + 1
+    /\ Step("foreign", 0, 0, 0, k)
+    /\ UNCHANGED <<cfg, cst, outcome, replyQ, futures, served, acks, published, fgn, closed>>
 
 \* the result consumer exists while the client is connected (shared queue) / while the owning call waits (exclusive queue)
 HasConsumer(q) == ~closed /\ (IF q = Shared THEN cfg.mode = "shared" ELSE cfg.mode = "exclusive" /\ cst[q] = "waiting")
@@ -92,7 +112,7 @@ DeliverReply(q) ==
                /\ outcome' = [outcome EXCEPT ![m.cid] = IF m.ctype = "json" THEN Value(m.of) ELSE Raised("Deser")]
           ELSE UNCHANGED <<futures, cst, outcome>>            \* unexpected or outdated: dropped
     /\ Step("deliver", 0, q, 0, "na")
-    /\ UNCHANGED <<cfg, reqQ, served, acks, published, closed, strays>>
+    /\ UNCHANGED <<cfg, reqQ, served, acks, published, fgn, closed, strays>>
 
 \* the environment puts a reply nobody asked for into a reply queue: an unknown correlation id, or the id of a waiting call
 \* with a foreign content type
@@ -104,7 +124,7 @@ Stray(q, cid, ctype) ==
     /\ replyQ' = [replyQ EXCEPT ![q] = Append(@, [cid |-> cid, ctype |-> ctype, of |-> 0])]
     /\ strays' = strays + 1
     /\ Step("stray", 0, q, cid, ctype)
-    /\ UNCHANGED <<cfg, cst, outcome, reqQ, futures, served, acks, published, closed>>
+    /\ UNCHANGED <<cfg, cst, outcome, reqQ, futures, served, acks, published, fgn, closed>>
 
 \* Client.close(): every call still waiting fails with CancelledError and its future is forgotten
 Close ==
@@ -113,13 +133,14 @@ Close ==
     /\ outcome' = [i \in Idx |-> IF cst[i] = "waiting" THEN Raised("Cancelled") ELSE outcome[i]]
     /\ futures' = {}
     /\ Step("close", 0, 0, 0, "na")
-    /\ UNCHANGED <<cfg, reqQ, replyQ, served, acks, published, strays>>
+    /\ UNCHANGED <<cfg, reqQ, replyQ, served, acks, published, fgn, strays>>
 
 Next == \/ \E i \in Idx : Start(i)
         \/ Serve
         \/ \E q \in Queues : DeliverReply(q)
         \/ \E q \in Queues, c \in {0} \cup Idx, t \in {"json", "text"} : Stray(q, c, t)
         \/ Close
+        \/ \E k \in {"noreply", "garbage"} : Foreign(k)
 Spec == [][Next]_vars
 \* without close() and without stray replies every call is eventually answered
 Quiet == ~closed /\ strays = 0
@@ -144,6 +165,9 @@ ServedInPublishOrder == \A j, k \in DOMAIN served : j < k =>
     \E a, b \in DOMAIN sched : a < b /\ sched[a].op = "start" /\ sched[a].i = served[j] /\ sched[b].op = "start" /\ sched[b].i = served[k]
 \* only a foreign content type or close() make a call raise
 RaisesOnlyFor == \A i \in Idx : cst[i] = "raised" => outcome[i] \in {Raised("Deser"), Raised("Cancelled")}
+\* what a foreign producer sends never shows up in the client's bookkeeping: its replies go nowhere, nothing is acknowledged that
+\* could not be read, and every request of the CLIENT is still served exactly once
+ForeignHarmless == fgn.lost = fgn.ran /\ fgn.ran + fgn.unacked <= strays
 TypeOK == /\ cst \in [Idx -> {"new", "waiting", "returned", "raised"}] /\ futures \subseteq Idx /\ closed \in BOOLEAN
 Termination == <>Finished
 =============================================================================
